@@ -17,7 +17,10 @@ import (
 	"sync"
 	"testing"
 
+	"github.com/sirupsen/logrus"
 	"pgregory.net/rapid"
+
+	"github.com/skycoin/skycoin/src/util/logging"
 
 	"verif/harness/internal/ev"
 )
@@ -207,6 +210,8 @@ func TempDir(prefix string) string {
 func Main(m *testing.M) {
 	if os.Getenv("VERIF_KEEP_LOG") == "" {
 		log.SetOutput(io.Discard)
+		logging.Disable()
+		logging.SetLevel(logrus.PanicLevel)
 	}
 	code := m.Run()
 	ev.Flush()
